@@ -67,6 +67,11 @@ type verifStorage struct {
 	firstWrite                    func(name string, off int64) bool
 }
 
+// verifLoopPatience: how long the harness waits for the event loop to take an event or answer a barrier before it
+// calls the loop hung. The loop commits to the resume database (an fsync) inside some handlers; on a machine that is
+// busy with other checks such a commit has been seen to take longer than five seconds.
+const verifLoopPatience = 20 * time.Second
+
 func newVerifStorage() *verifStorage {
 	s := &verifStorage{files: map[string]*verifFileData{}}
 	s.release = sync.NewCond(&s.mu)
@@ -1038,7 +1043,7 @@ func (w *VerifWorld) call(f func()) bool {
 	select {
 	case <-done:
 		return true
-	case <-time.After(5 * time.Second):
+	case <-time.After(verifLoopPatience):
 		w.dead = true
 		verifDumpStacks()
 		return false
@@ -1062,7 +1067,7 @@ func (w *VerifWorld) barrier() (Stats, error) {
 	select {
 	case st := <-ch:
 		return st, nil
-	case <-time.After(5 * time.Second):
+	case <-time.After(verifLoopPatience):
 		w.dead = true
 		verifDumpStacks()
 		return Stats{}, errVerifHang
@@ -1558,7 +1563,7 @@ func (w *VerifWorld) Op(op string) string {
 			if err != nil {
 				return "error:addtracker " + w.observeAfterSettle()
 			}
-		case <-time.After(5 * time.Second):
+		case <-time.After(verifLoopPatience):
 			w.dead = true
 			return "hang"
 		}
@@ -1682,7 +1687,7 @@ func (w *VerifWorld) Op(op string) string {
 		hold := make(chan Stats) // unbuffered: the loop blocks in its answer until it is taken
 		select {
 		case w.t.statsCommandC <- statsRequest{Response: hold}:
-		case <-time.After(5 * time.Second):
+		case <-time.After(verifLoopPatience):
 			w.dead = true
 			return "hang"
 		}
@@ -1692,7 +1697,7 @@ func (w *VerifWorld) Op(op string) string {
 		go func() {
 			select {
 			case w.t.peerDisconnectedC <- p.pe:
-			case <-time.After(5 * time.Second):
+			case <-time.After(verifLoopPatience):
 			}
 			close(sent)
 		}()
@@ -1709,7 +1714,7 @@ func (w *VerifWorld) Op(op string) string {
 		}
 		select {
 		case w.t.peerDisconnectedC <- p.pe:
-		case <-time.After(5 * time.Second):
+		case <-time.After(verifLoopPatience):
 			w.dead = true
 			return "hang"
 		}
@@ -1723,7 +1728,7 @@ func (w *VerifWorld) Op(op string) string {
 		}
 		select {
 		case w.t.peerSnubbedC <- p.pe:
-		case <-time.After(5 * time.Second):
+		case <-time.After(verifLoopPatience):
 			w.dead = true
 			return "hang"
 		}
@@ -1831,7 +1836,7 @@ func (w *VerifWorld) opPeer(m map[string]string) string {
 	w.peers[k] = p
 	select {
 	case w.t.incomingConnC <- c:
-	case <-time.After(5 * time.Second):
+	case <-time.After(verifLoopPatience):
 		w.dead = true
 		return "hang"
 	}
@@ -1959,7 +1964,7 @@ func (w *VerifWorld) opMsg(m map[string]string) string {
 		// the peer is reported as disconnected instead
 		select {
 		case w.t.peerDisconnectedC <- p.pe:
-		case <-time.After(5 * time.Second):
+		case <-time.After(verifLoopPatience):
 			w.dead = true
 			return "hang"
 		}
@@ -1967,7 +1972,7 @@ func (w *VerifWorld) opMsg(m map[string]string) string {
 	}
 	select {
 	case w.t.messages <- peer.Message{Peer: p.pe, Message: msg}:
-	case <-time.After(5 * time.Second):
+	case <-time.After(verifLoopPatience):
 		w.dead = true
 		return "hang"
 	}
@@ -2030,7 +2035,7 @@ func (w *VerifWorld) opPiece(p *verifPeer, m map[string]string) string {
 	}
 	select {
 	case w.t.pieceMessagesC.SendC() <- pm:
-	case <-time.After(5 * time.Second):
+	case <-time.After(verifLoopPatience):
 		w.dead = true
 		return "hang"
 	}
@@ -2040,7 +2045,7 @@ func (w *VerifWorld) opPiece(p *verifPeer, m map[string]string) string {
 		// handles first is up to the scheduler, the resulting state must be the same
 		select {
 		case w.t.peerDisconnectedC <- p.pe:
-		case <-time.After(5 * time.Second):
+		case <-time.After(verifLoopPatience):
 			w.dead = true
 			return "hang"
 		}
